@@ -95,6 +95,7 @@ def plan(tier, seed):
     for _ in range(2 if q else 6):
         specs.append({"kind": "classes", "count": 500 if q else 5000})
     specs.append({"kind": "grey_classes", "count": 150 if q else 3000})
+    specs.append({"kind": "mappings"})
     return specs
 
 
@@ -195,6 +196,31 @@ def run_mutations(spec, rec, lib):
             rec.extra["max_steps"] = budget.max_steps
             rec.extra["total_steps"] = budget.total
             budget.__exit__(None, None, None)
+
+
+def run_mappings(spec, rec, lib):
+    """protocol corners at every mapping position of the verifiers' arguments: the same content held in a mapping with a __missing__
+    hook (collections.defaultdict with several defaults), and role names absent from it - whatever happens stays in the documented
+    families (the verdict itself is a grey zone for dict subclasses)"""
+    defaults = [{}, 0, None, "", {"pubkeys": [palette.HK], "threshold": 1}, {"signature": palette.SIG}, palette.SIG]
+    n = 0
+    for dotted, base in VERIFIERS:
+        for pth in mutate.paths(base):
+            if not pth:
+                continue
+            tgt = jsonvals.get_path(base, pth)
+            if type(tgt) is not dict or "$py" in tgt:
+                continue
+            for dflt in defaults:
+                for keep in (True, False):
+                    args = jsonvals.set_path(base, pth, {"$py": "defaultdict", "default": dflt, "v": tgt if keep else {}})
+                    variants = [args]
+                    if dotted.endswith("verify_delegation") and isinstance(args, list) and args and isinstance(args[0], str):
+                        variants.append([args[0] + "-not-delegated"] + list(args[1:]))  # a role the mapping does not hold
+                    for a in variants:
+                        judge(dotted, a, rec, lib, "defaultdict@" + "/".join(str(x) for x in pth))
+                        n += 1
+    rec.count("mapping_protocol_cases", n)
 
 
 def run_hostile_json(spec, rec, lib):
@@ -316,6 +342,8 @@ def run_grey_classes(spec, rec, lib):
 
 
 def run_shard(spec, rec, lib):
+    if spec.get("kind") == "mappings":
+        return run_mappings(spec, rec, lib)
     if spec["kind"] == "grey_classes":
         return run_grey_classes(spec, rec, lib)
     {"positions": run_positions, "mutations": run_mutations, "hostile_json": run_hostile_json, "classes": run_classes}[
